@@ -14,6 +14,7 @@ import (
 	"encoding/json"
 	"fmt"
 	"os"
+	"strings"
 	"sync"
 	"time"
 
@@ -26,7 +27,18 @@ import (
 )
 
 var c22Policies = []string{"Basic128Rsa15", "Basic256", "Basic256Sha256", "Aes128_Sha256_RsaOaep", "Aes256_Sha256_RsaPss"}
-var c22Sigs = []string{"valid", "corrupt", "empty", "zero", "truncated", "wrongkey", "wrongnonce", "wrongcert_data", "eccert", "garbagecert", "othercert_valid", "nilcert"}
+var c22Sigs = []string{"valid", "corrupt", "empty", "zero", "truncated", "wrongkey", "wrongnonce", "wrongcert_data", "eccert", "garbagecert", "othercert_valid", "nilcert",
+	// the Algorithm label of the SignatureData: empty, unknown, the URI of another policy's algorithm - with a valid,
+	// garbage, absent or wrong-key signature - and no SignatureData at all
+	"alg_empty_valid", "alg_empty_garbage", "alg_empty_nosig", "alg_empty_wrongkey",
+	"alg_unknown_valid", "alg_unknown_garbage", "alg_unknown_nosig",
+	"alg_foreign_valid", "alg_foreign_garbage", "alg_foreign_wrongkey", "nil_sigdata"}
+
+const (
+	algSha1   = "http://www.w3.org/2000/09/xmldsig#rsa-sha1"
+	algSha256 = "http://www.w3.org/2001/04/xmldsig-more#rsa-sha256"
+	algPss    = "http://opcfoundation.org/UA/security/rsa-pss-sha2-256"
+)
 
 func pubOf(der []byte) *rsa.PublicKey {
 	c, err := x509.ParseCertificate(der)
@@ -141,7 +153,7 @@ func c22Main(seed uint64, n int, keys, replay string) {
 					signKey := srvKey
 					data := append(append([]byte{}, req.ClientCertificate...), req.ClientNonce...)
 					switch sigKind {
-					case "wrongkey":
+					case "wrongkey", "alg_empty_wrongkey", "alg_foreign_wrongkey":
 						signKey = othKey
 					case "wrongnonce":
 						data = append(append([]byte{}, req.ClientCertificate...), make([]byte, len(req.ClientNonce))...)
@@ -173,6 +185,25 @@ func c22Main(seed uint64, n int, keys, replay string) {
 						sig = []byte{1, 2, 3, 4}
 					}
 					switch sigKind {
+					case "alg_empty_garbage", "alg_unknown_garbage", "alg_foreign_garbage":
+						sig = []byte("this is not a signature")
+					case "alg_empty_nosig", "alg_unknown_nosig":
+						sig = nil
+					}
+					switch {
+					case strings.HasPrefix(sigKind, "alg_empty"):
+						alg = ""
+					case strings.HasPrefix(sigKind, "alg_unknown"):
+						alg = "urn:verif:no-such-algorithm"
+					case strings.HasPrefix(sigKind, "alg_foreign"):
+						// the signature algorithm of a policy other than the channel's
+						if alg == algSha1 {
+							alg = algSha256
+						} else {
+							alg = algSha1
+						}
+					}
+					switch sigKind {
 					case "corrupt":
 						if len(sig) > 0 {
 							sig = append([]byte{}, sig...)
@@ -188,6 +219,13 @@ func c22Main(seed uint64, n int, keys, replay string) {
 						}
 					}
 					return sig, alg, respCert
+				}
+				if sigKind == "nil_sigdata" {
+					// a nil *SignatureData does not encode (the message would be undecodable): the wire form of "no
+					// signature" is a SignatureData whose two fields are null
+					srv.CreateSig = func(cn *scriptsrv.Conn, req *ua.CreateSessionRequest) (*ua.SignatureData, []byte) {
+						return &ua.SignatureData{}, srvCert
+					}
 				}
 				c.URL = srv.URL
 				if p == nil {
